@@ -381,7 +381,28 @@ func genCodecDecFocus(g *Gen, w *bufio.Writer, t *fTables) {
 				}
 			}
 			b := renderMsg(m, man, opt)
+			// one or two of the present optional elements once more behind the message (a repeated element, cut anywhere)
+			for rep := 0; rep < 2; rep++ {
+				j := g.Intn(len(m.DecOpt) + 1)
+				if j < len(m.DecOpt) && opt[j] != nil && r%2 == 0 {
+					b = append(b, m.DecOpt[j].render(*opt[j], true)...)
+				}
+			}
 			for k := 0; k <= len(b); k++ {
+				fmt.Fprintf(w, "dec plain %s\n", hexs(b[:k]))
+			}
+		}
+		// every lengthed optional element twice in a row, every prefix
+		for j := range m.DecOpt {
+			sj := &m.DecOpt[j]
+			if sj.LenSize == 0 {
+				continue
+			}
+			lo, _ := sj.bounds()
+			v := sj.value(g, lo, true)
+			one := sj.render(v, true)
+			b := append(append(append([]byte{}, base...), one...), one...)
+			for k := len(base); k <= len(b); k++ {
 				fmt.Fprintf(w, "dec plain %s\n", hexs(b[:k]))
 			}
 		}
@@ -435,6 +456,70 @@ func genEntryFocusDec(g *Gen, w *bufio.Writer, t *fTables, bases [][]byte) {
 						fmt.Fprintf(w, "dec plain %s\n", hexs(wire))
 						fmt.Fprintf(w, "dec %s %s\n", d.Family, hexs(wire))
 					}
+				}
+			}
+		}
+	}
+	// a message behind a length prefix (NAS over TCP framing, TS 24.502 9.4) or behind another message's header: the entry points
+	// take exactly the octets they are given
+	for _, b := range bases {
+		fmt.Fprintf(w, "dec plain %04x%s\n", len(b), hexs(b))
+		fmt.Fprintf(w, "dec plain %02x%s\n", len(b)&0xff, hexs(b))
+		fmt.Fprintf(w, "dec plain %04x%s\n", len(b)+2, hexs(b))
+	}
+	// a message nested in its own container element, to depths of 2, 8, 64 and as deep as 60 000 octets allow: work and
+	// allocation stay linear however deep the nesting is
+	for di := range t.Dispatch {
+		d := &t.Dispatch[di]
+		for _, c := range d.Decode {
+			m := t.msg(c.Msg)
+			if m == nil {
+				continue
+			}
+			nMan := len(m.DecMan)
+			for i := 0; i < nMan+len(m.DecOpt); i++ {
+				var s *fSlot
+				o := i >= nMan
+				if o {
+					s = &m.DecOpt[i-nMan]
+				} else {
+					s = &m.DecMan[i]
+				}
+				_, hi := s.bounds()
+				if !lengthed(s) || s.LenSize != 2 || hi < 60000 {
+					continue
+				}
+				inner := []byte{}
+				for depth := 1; ; depth++ {
+					man := mandatoryL(g, m, c.Const, d.TypeIndex, epdOf(d.Family), true)
+					for k := d.HeaderLen; k < nMan; k++ {
+						if lengthed(&m.DecMan[k]) && k != i {
+							lo, _ := m.DecMan[k].bounds()
+							man[k] = m.DecMan[k].withContent(make([]byte, lo), false)
+						}
+					}
+					// a plain header in front: security header type 0
+					if len(man) > 1 && len(man[1].data) == 1 {
+						man[1].data = []byte{0}
+					}
+					opt := make([]*ieVal, len(m.DecOpt))
+					v := s.withContent(inner, o)
+					if o {
+						opt[i-nMan] = &v
+					} else {
+						man[i] = v
+					}
+					wire := renderMsg(m, man, opt)
+					if len(wire) > 60000 {
+						break
+					}
+					if depth == 2 || depth == 8 || depth == 64 || depth%1500 == 0 {
+						fmt.Fprintf(w, "dec plain %s\n", hexs(wire))
+					}
+					inner = wire
+				}
+				if len(inner) > 0 {
+					fmt.Fprintf(w, "dec plain %s\n", hexs(inner))
 				}
 			}
 		}
